@@ -1,8 +1,8 @@
 SPECIFICATION MCSpec
 CONSTANTS
-  Nodes = {"a","b","c"}
-  Voters0 = {"a","b","c"}
-  Observers = {}
+  Nodes = {"a", "b", "c", "o1"}
+  Voters0 = {"a", "b", "c"}
+  Observers = {"o1"}
   Nil = "Nil"
   BatchBytes = 50
   UseBatch = TRUE
@@ -14,18 +14,18 @@ CONSTANTS
   Membership = FALSE
   CompactMin = 1000000
   SnapChunk = 65536
-  Cmds = {}
+  Cmds = {"c1"}
   CmdSize = 40
-  MaxTerm = 2
+  MaxTerm = 1
   MaxLog = 4
   MaxChan = 2
-  MaxFaults = 0
-  Electors = {"a","b","c"}
-  SubmitAt = {}
-  Advs0 = {"z","j"}
+  MaxFaults = 1
+  Electors = {"a"}
+  SubmitAt = {"o1"}
+  Advs0 = {"h", "j"}
   SnapSize = 100
   Compactors = {}
-  FaultPairs = {{"a","b"},{"a","c"},{"b","c"},{"a","d"},{"b","d"},{"c","d"},{"a","e"},{"b","e"},{"c","e"},{"d","e"}}
+  FaultPairs = {{"a","o1"},{"b","o1"}}
   Isolated0 = {}
   MembCids = {}
   MembTargets = {}
